@@ -71,6 +71,9 @@ type CallRec struct {
 	Args    []Value
 	Results []Value
 	Snap    map[string]Value // named snapshots taken by the contract
+	Pre     *State           // state just before the call
+	Post    *State           // state just after the call (effects and ensures applied)
+	Vars    map[string]specVar
 }
 
 // State is the symbolic state at a program point.
